@@ -62,6 +62,14 @@ CLAIMED["C15"] = dict(
     technique="Coq proof (fold lemmas for json_object_update_missing, case analysis) + extracted-model correspondence",
 )
 
+CLAIMED["C01"] = dict(
+    category="proof",
+    text="Theorems in coq/Props/Properties_C01.v about a Gallina model of jose_jws_ver_io/jose_jws_ver (lib/jws.c) built on the IO-chain model of C07, for ANY list of signature algorithms: C01_verdict -- for every split of the payload into feeds, the verdict of the final done() equals a closed-form function (any/all over keys of any-over-signature-objects of: key permitted, algorithm = merged header's or key's declared one, primitive check over exactly protected || '.' || payload with exactly the decoded signature); one-shot = streamed; soundness read off that function; the vacuous cases (empty key set, empty/absent signature list, absent signature, unknown algorithm such as 'none') fail. Tie: extracted model with Gallina HMAC-SHA2 vs the library on library-produced tokens, every key-set shape and mode, single-character mutations of payload/protected/signature/key, structural mutations, all compositions of the payload into feeds; RSA/PSS/ECDSA tokens evaluated on the BigZ model inside coqc.",
+    design_ref="DESIGN.md section 3 C01",
+    note="Coq kernel; no axioms in the theorems (Bignums' primitive Int63 ops only in the executable public-key instance); unforgeability of the primitives is cryptography and assumed; empty-signature rejection needs a per-algorithm fact.",
+    technique="Coq proof (reduction of the verifier IO object to a closed-form verdict via the C07 multiplexer theorems) + extracted-model / vm_compute correspondence with mutation",
+)
+
 NOT_YET = {}
 
 def main():
